@@ -200,7 +200,7 @@ where
 
         let (buf_tx, buf_rx) = bounded(insert_buffer_size);
         let (stop_tx, stop_rx) = stop_channel();
-        let (clear_tx, clear_rx) = unbounded();
+        let (clear_tx, clear_rx) = unbounded::<WaitGroup>();
 
         let hasher = self.inner.hasher.unwrap();
         let expiration_map = ExpirationMap::with_hasher(hasher.clone());
@@ -263,7 +263,7 @@ where
 pub(crate) struct CacheProcessor<V, U, CB, S> {
     insert_buf_rx: Receiver<Item<V>>,
     stop_rx: Receiver<()>,
-    clear_rx: Receiver<()>,
+    clear_rx: Receiver<WaitGroup>,
     metrics: Arc<Metrics>,
     store: Arc<ShardedMap<V, U, S, S>>,
     policy: Arc<AsyncLFUPolicy<S>>,
@@ -382,7 +382,7 @@ pub struct AsyncCache<
 
     pub(crate) stop_tx: Sender<()>,
 
-    pub(crate) clear_tx: Sender<()>,
+    pub(crate) clear_tx: Sender<WaitGroup>,
 
     pub(crate) callback: Arc<CB>,
 
@@ -511,20 +511,21 @@ where
             return Ok(());
         }
 
-        // stop the process item thread.
-        self.clear_tx.send(()).await.map_err(|e| {
+        // Hand the clear over to the processor task: it drains the insert buffer and clears
+        // policy, store and metrics in order with the items it handles. Clearing them from
+        // here would race with the items the processor is still applying.
+        let wg = WaitGroup::new();
+        self.clear_tx.send(wg.add(1)).await.map_err(|e| {
             CacheError::SendError(format!("fail to send clear signal to working thread {}", e))
         })?;
 
         #[cfg(transparencies_stretto_verif)]
         crate::verif::sched::point("clear:after_signal");
-        self.policy.clear();
-        #[cfg(transparencies_stretto_verif)]
-        crate::verif::sched::point("clear:after_policy_clear");
-        self.store.clear();
-        #[cfg(transparencies_stretto_verif)]
-        crate::verif::sched::point("clear:after_store_clear");
-        self.metrics.clear();
+        // Closed in the meantime: the processor releases every pending signal on its way out,
+        // but one that arrives after that would never be released.
+        if !self.is_closed.load(Ordering::SeqCst) {
+            wg.wait().await;
+        }
 
         Ok(())
     }
@@ -726,7 +727,7 @@ where
         policy: Arc<AsyncLFUPolicy<S>>,
         insert_buf_rx: Receiver<Item<V>>,
         stop_rx: Receiver<()>,
-        clear_rx: Receiver<()>,
+        clear_rx: Receiver<WaitGroup>,
         metrics: Arc<Metrics>,
         callback: Arc<CB>,
     ) -> Self {
@@ -784,7 +785,7 @@ where
                         #[cfg(transparencies_stretto_verif)]
                         crate::verif::counters::inc(&crate::verif::counters::TICKS_DONE);
                     },
-                    _ = self.clear_rx.recv().fuse() => {
+                    wg = self.clear_rx.recv().fuse() => {
                         #[cfg(transparencies_stretto_verif)]
                         crate::verif::sched::point("proc:clear_arm");
                         if let Err(e) = CacheCleaner::new(&mut self).clean().await {
@@ -792,8 +793,14 @@ where
                             #[cfg(transparencies_stretto_verif)]
                             crate::verif::counters::inc(&crate::verif::counters::HANDLER_ERRORS);
                         }
+                        self.policy.clear();
+                        self.store.clear();
+                        self.metrics.clear();
                         #[cfg(transparencies_stretto_verif)]
                         crate::verif::counters::inc(&crate::verif::counters::CLEARS_DONE);
+                        if let Ok(wg) = wg {
+                            wg.done();
+                        }
                     },
                     _ = self.stop_rx.recv().fuse() => {
                         #[cfg(transparencies_stretto_verif)]
@@ -815,6 +822,9 @@ where
         // marker in it.
         while let Ok(item) = self.insert_buf_rx.try_recv() {
             CacheCleaner::new(self).handle_item(item);
+        }
+        while let Ok(wg) = self.clear_rx.try_recv() {
+            wg.done();
         }
         Ok(())
     }
